@@ -486,22 +486,25 @@ class TimeBase(np.ndarray):
 
     def __getitem__(self, item):
         """Update _jd*_sliced with correct shape, used by __array_finalize__"""
-        if not isinstance(item, tuple):
-            # super.__getitem__ and other super methods (like __repr__) will send in a tuple to 
-            # recursively access all individual elements.
-            # Do not update _jd*_sliced when this happens.
-            # TODO: What if the user is indexing the TimeArray with a tuple?
-            if isinstance(self.jd1, np.ndarray):
-                super().__setattr__("_jd1_sliced", self.jd1[item])
-            if isinstance(self.jd2, np.ndarray):
-                super().__setattr__("_jd2_sliced", self.jd2[item])
-        
-        if isinstance(item, (int, np.int_)):
-            # Make a new time object if a single entry is requested
-            return self._scales()[self.scale].from_jds(self._jd1_sliced, self._jd2_sliced, self.fmt)
-        
-        return super().__getitem__(item) # __array_finalize__ is called when this finishes
-    
+        # The epochs are indexed by the first entry of a tuple index (super.__getitem__ and other super methods like
+        # __repr__ send in tuples to access individual elements)
+        jd_item = (item[0] if item else Ellipsis) if isinstance(item, tuple) else item
+        if isinstance(self.jd1, np.ndarray):
+            super().__setattr__("_jd1_sliced", self.jd1[jd_item])
+        if isinstance(self.jd2, np.ndarray):
+            super().__setattr__("_jd2_sliced", self.jd2[jd_item])
+
+        try:
+            if isinstance(item, (int, np.int_)):
+                # Make a new time object if a single entry is requested
+                return self._scales()[self.scale].from_jds(self._jd1_sliced, self._jd2_sliced, self.fmt)
+
+            return super().__getitem__(item) # __array_finalize__ is called when this finishes
+        finally:
+            # The sliced Julian dates are handed over by now, other arrays made from this one must not pick them up
+            super().__setattr__("_jd1_sliced", None)
+            super().__setattr__("_jd2_sliced", None)
+
     @classmethod
     def _read(cls, h5_group, memo):
         scale = h5_group.attrs["scale"]
